@@ -31,7 +31,13 @@ const componentRule = "component: case i of seed s is a pure function plan(s,i):
 	"waitForBlocks, (d) holding blocks whose filter / filter header / block fetch was scripted to fail; Updates (AddAddrs, AddInputs, " +
 	"Rewind with and without DisableDisconnectedNtfns) are issued settled, racing or while parked. Fingerprint = (family+whether a gate " +
 	"parked the rescan, deepest fork relative to the caller's position, its depth bucket, failure kinds, strongest update kind@timing, " +
-	"start kind/start time, end kind). Non-trivial = at least 3 block callbacks observed and at least one reorg, update, forced retry or park."
+	"start kind/start time, end kind). Non-trivial = at least 3 block callbacks observed and at least one reorg, update, forced retry or park. " +
+	"Family stale-rewind (stale.go; the first 4 cases do not depend on the seed): Update(Rewind(h)[, DisableDisconnectedNtfns(true)]) is applied while " +
+	"the block the caller holds is OFF the best chain: the chain source reorganises from fork point f and (queued) all notifications of the " +
+	"reorganisation are kept back while the idle rescan takes the Update, then flow at once / after the rescan went quiet / never; (racing) the " +
+	"rescan is parked in the tip block's connected callback, notifications pile up in its subscription, the Update call waits on the update " +
+	"channel, the gate opens; (catchup, catchup-after-rewind) the same while parked in the middle of a walk by height; crossed with " +
+	"f<h<cur, h<=f, h==cur, h>cur and silent / notifying rewinds; its fingerprint adds the measured relation at the moment the Update was sent."
 
 type witness struct {
 	Case        int      `json:"case"`
@@ -51,6 +57,9 @@ func describe(res *Result) witness {
 	w := witness{Case: p.Index, Seed: p.Seed, Family: p.Family, Fingerprint: res.Fingerprint(), Trace: res.Trace}
 	w.Start = fmt.Sprintf("%s start=%d(%s) trunk0=%d startTime=%s end=%s ntfn=%s staleFilterServed=%v current0=%v",
 		p.StartKind, p.StartNode.Height, short(p.StartNode.Hash), p.Trunk0.Height, p.StartTimeK, p.EndKind, p.Ntfn, p.StaleFilter, p.Current0)
+	if p.Stale != nil {
+		w.Start += " | stale-rewind: " + p.Stale.String()
+	}
 	w.Watch = fmt.Sprintf("addrs=%v inputs=%d byScript=%d", p.InitKeys, len(p.InitInputs), len(p.InitScripts))
 	for _, o := range p.Ops {
 		w.Script = append(w.Script, o.String())
@@ -91,6 +100,8 @@ func Component(r *evid.Run) {
 		"Disconnected highest-first after each store rollback, Connected after the (batched) filter-header write, NotificationsSinceHeight as blockManager's")
 	r.Assume("reorganisations end on a strictly longer branch (constant difficulty: only a longer branch is heavier)")
 	r.Assume("a rescan that terminates with an error handed to its caller has made no further promise; such cases are counted, not judged beyond the callbacks already delivered")
+	r.Assume("block notifications the harness keeps back after changing the visible chain stand for notifications still queued in the rescan's subscription " +
+		"(the stores change before a subscriber consumes the notification; Go's select may take a ready Update before a ready notification)")
 
 	n := r.Pick(QuickCases, ThoroughCases)
 	workers := runtime.GOMAXPROCS(0)
@@ -100,6 +111,10 @@ func Component(r *evid.Run) {
 	indices := make([]int, n)
 	for i := range indices {
 		indices[i] = i
+	}
+	// Family stale-rewind: its own index range (StaleBase+j), fixed cases first.
+	for j, ns := 0, r.Pick(QuickStale, ThoroughStale); j < ns; j++ {
+		indices = append(indices, StaleBase+j)
 	}
 	if v := os.Getenv("C09_ONLY"); v != "" {
 		// Reproduction aid: run the single case named in a witness
@@ -126,6 +141,8 @@ func Component(r *evid.Run) {
 	exitKinds := map[string]int{}
 	reorgRel := map[string]int{}
 	families := map[string]int{}
+	staleAt := map[string]int{}
+	staleOut := map[string]int{}
 	var results []*Result
 	for w := 0; w < workers; w++ {
 		wg.Add(1)
@@ -187,6 +204,39 @@ func Component(r *evid.Run) {
 		if res.Exited {
 			exitKinds[exitKind(res.ExitErr)]++
 		}
+		if sp := p.Stale; sp != nil {
+			r.Count("stale_rewind_cases", 1)
+			if sp.Fixed {
+				r.Count("stale_rewind_fixed_cases", 1)
+			}
+			rel := res.StaleRel
+			if rel == "" {
+				rel = "caller-on-best-chain"
+			}
+			silent := map[bool]string{true: "silent", false: "notifying"}[sp.Silent]
+			staleAt[sp.Mode+":"+rel+":"+silent]++
+			out := "walk-completed-on-final-tip"
+			if res.Exited && res.ExitErr != "quit" && res.ExitErr != "" {
+				out = "rescan-error-exit:" + exitKind(res.ExitErr)
+			}
+			if res.Violation != nil {
+				out = "violation"
+			}
+			staleOut[rel+":"+silent+":"+out]++
+			if res.StaleRel != "" {
+				r.Count("stale_rewind_updates_sent_while_callers_block_off_best_chain", 1)
+				r.Count("stale_rewind_blocks_held_off_best_chain", int64(res.StaleDepth))
+				if res.Exited && res.ExitErr != "quit" && res.ExitErr != "" {
+					r.Count("stale_rewind_error_exits", 1)
+				}
+			}
+			if res.StaleRel == relForkBelowRewind {
+				r.Count("stale_rewind_fork_below_rewind_below_caller", 1)
+				if sp.Silent {
+					r.Count("stale_rewind_fork_below_rewind_below_caller_silent", 1)
+				}
+			}
+		}
 		if st.MaxWorlds > 1 {
 			r.Count("cases_with_update_concurrent_to_callbacks", 1)
 		}
@@ -207,4 +257,6 @@ func Component(r *evid.Run) {
 	r.Set("reorgs_by_phase_and_fork_position", reorgRel)
 	r.Set("rescan_terminations", exitKinds)
 	r.Set("cases_by_family", families)
+	r.Set("stale_rewind_by_mode_relation_at_update", staleAt)
+	r.Set("stale_rewind_outcomes", staleOut)
 }
